@@ -168,7 +168,7 @@ NAMES = {"08": "radiator_valve", "09": "underfloor_heating", "0A": "zone_valve",
 def zone_list_reply_names_exactly_its_zones(zone_type, top):
     """MultiZone._handle_msg on an RP|0005 about any zone type with ANY 16-bit zone mask (the case fixes bits
     12-15, bits 0-11 are symbolic: the quick tier covers every mask of a 12-zone controller): a zone is looked up /
-    created for exactly the indexes whose bit is set, in ascending order, with the class the reply is about (the
+    created for exactly the indexes whose bit is set, with the class the reply is about (the
     sensor list: no class, the message is handed on) -- nothing for a bit that is clear."""
     bits = [sym_int(f"bit_{i}", 0, 1) for i in range(12)] + [(top >> j) & 1 for j in range(4)]
     tcs = new_object(SH.Evohome, _gwy=FakeGwy(), id=CTL, ctl=FakeCtl(), zone_by_idx={}, zones=[], _prev_30c9=None)
@@ -177,7 +177,7 @@ def zone_list_reply_names_exactly_its_zones(zone_type, top):
     check(o.ok, "the reply is handled without an exception")
     named = ghost("zones_named")
     want = [f"{i:02X}" for i in range(16) if bits[i] == 1]
-    check([z for z, c, m in named] == want, "exactly the zones whose bit is set are looked up / created, each once, in order")
+    check(sorted(z for z, c, m in named) == want, "exactly the zones whose bit is set are looked up / created, each once")
     if zone_type == "04":
         check(all(c is None and m is msg for z, c, m in named), "the sensor list names zones without a class")
     else:
@@ -233,8 +233,10 @@ def device_list_reply_names_exactly_its_devices(role, n):
         check(len(classes) == 0, "a sensor reply does not set the zone's class")
     else:
         check(len(named) == n, "every device listed is associated, once")
-        for (d, p, s), want in zip(named, devs):
-            check(And(d == want, p is zone, Not(s)), "each as an actuator of THIS zone, in the order listed")
+        for d, p, s in named:
+            check(And(Or(*[d == want for want in devs]), p is zone, Not(s)), "each as an actuator of THIS zone, and nothing that was not listed")
+        for want in devs:
+            check(Or(*[d == want for d, p, s in named]), "no device listed is left out")
         if role == "00":
             check(len(classes) == 0, "a reply about generic actuators does not set the zone's class")
         else:
